@@ -94,7 +94,7 @@ func LoadProgram(goos, goarch string, allBodies bool) (*Program, error) {
 		prog.Build()
 	} else {
 		for _, sp := range prog.AllPackages() {
-			if isModPkg(sp.Pkg.Path()) {
+			if isModPkg(sp.Pkg.Path()) || strings.Contains(sp.Pkg.Path(), "tmpim/casket-plugins") {
 				sp.Build()
 			}
 		}
@@ -284,6 +284,7 @@ func (r *Report) Rule(id, text string, min int) {
 }
 
 func (r *Report) add(rule, construct string, pos token.Pos, ok bool, what string, facts ...string) {
+	construct = strings.ReplaceAll(construct, " ", "") // constructs are single tokens in known_findings.txt
 	r.Obs = append(r.Obs, Ob{Rule: rule, Construct: construct, Pos: r.Prog.Pos(pos), OK: ok, What: what, Facts: facts})
 }
 
